@@ -255,9 +255,10 @@ SkipTo(w, s, r) ==
                IN {BeginConverge(w, s2, xj)}
   ELSE {s}
 
+WrongBase(m, inp) == m.v # Bot /\ Base(m.v) # Base(inp)   \* late-binding check of receiveOne (ErrValidationWrongBase)
 \* receiveOne + tryCurrentPhase as a function: state st = [R, J, s]; returns the set of successor states
 Absorb(p, st, m, inp) ==
-  IF IgnoredS(st.s, m) \/ (m.v # Bot /\ Base(m.v) # Base(inp)) THEN {st}
+  IF IgnoredS(st.s, m) \/ WrongBase(m, inp) THEN {st}
   ELSE
   LET slotFree == m.s \notin {x.s : x \in {y \in st.R : y.r = m.r /\ y.ph = m.ph}}
       addJ == /\ m.ph \in {"PREPARE", "COMMIT"} /\ m.j # NoJ
